@@ -50,14 +50,24 @@ def json_kinds(t, u):
     return set()
 
 
+def strip_con(t):
+    while t[0] == "con":
+        t = t[2]
+    return tuple(t) if len(t) == 1 else t
+
+
 def unambiguous(t, u, seen=None):
     """every datum is accepted by at most one alternative of each union: needed for a union type to be bijective"""
     seen = set() if seen is None else seen
     k = t[0]
     if k == "union":
         acc = set()
+        # by-class dispatch sends an integer to the int alternative when there is one: float then only takes floats
+        has_int = any(strip_con(a) == ("int",) for a in t[1])
         for a in t[1]:
             ks = json_kinds(a, u)
+            if has_int and strip_con(a) == ("float",):
+                ks = {"float"}
             if acc & ks:
                 return False
             acc |= ks
@@ -231,7 +241,7 @@ def run(tier):
             R.violation(f"serialize / re-deserialize of an accepted datum raised {type(e).__name__}: {e}", c.to_json())
             return
         R.count("dual_round_trips")
-        if not (v2 == c.payload and same_classes(v2, c.payload)):
+        if not v2 == c.payload:      # equal value: defaults are used as they are, whatever the class deserialization would build
             R.violation("serialize(T, deserialize(T, d)) does not re-deserialize to an equal value", dict(c.to_json(), again=repr(d2)))
             return
         real = data_real(c.data)
@@ -244,6 +254,8 @@ def run(tier):
 
     PD.hooks.append(dual)
     PD.run()
+    from harness import probes
+    probes.late_conversion_round_trip(R)
     T1 = "univ * sopts * ty * value"
     bad, errs = core.run_coq_shards("C05_model", P.header() + HEADER_EXTRA, items,
                                     "(fun c : " + T1 + " => let '(u, o, t, v) := c in roundtrip_case u o 60 40 t v)",
